@@ -9,6 +9,10 @@ P = {
          'Theorems for every assignment accepted by greedy_ok_b (hence every tie-break variant): completeness and confinement to one group, colocation, non-increasing processing order, least-loaded group / least-loaded worker at every placement, worker-load and group-load balance bounds by the largest item, for all disjoint groups and non-negative integer costs. Tie: the implementation output is accepted by the extracted checker on every generated case (fast path equality with the extracted deterministic greedy); purity checked by repeated calls, argument snapshots and different hash seeds.',
          'Coq kernel; extraction + driver; integer costs (float rounding of non-integer costs not modelled); processing order among tied layers fixed to the stable order. Closed under the global context.',
          'DESIGN.md §4 C17'),
+ 'C03': (True, 'Coq proof of deadlock-freedom and completion for every program that is a projection of one global collective order (Coll semantics, every interleaving, every wait placement) + verified global-order checker run on the call logs of the unmodified preconditioner under simdist',
+         'Theorems (Coll: asynchronous issue, blocking wait, per-group FIFO matching): if the issues of every rank are the projection of one global instance list and every wait follows its issue, then in every state (any interleaving) some unfinished rank is enabled, no state is stuck before all ranks finish, every state can be run to completion, all members of a group issue the same sequence with equal metadata, nobody issues on a foreign group; the boolean checker proj_ok_b is sound (it constructs the global order; roots are members); crossed waits with per-group matching only do deadlock (Example). Tie: random K-FAC configurations x histories (construction, hooks, steps under constant/callable intervals, accumulation, bucketed/unbucketed, symmetric, state_dict/memory_usage on subsets, load_state_dict into a fresh object) x 3 schedules: logs accepted by the extracted checker, identical across schedules, runs complete with no mismatch/foreign group/non-member root/deadlock. PARTIAL: that the K-FAC control logic always produces such projections (kfac_proj for all configurations) is not a theorem; it is established per observed run.',
+         'Coq kernel; extraction + driver; simdist fidelity to NCCL/gloo semantics; wait-after-issue holds by API construction; real transport time-outs outside the model. Closed under the global context.',
+         'DESIGN.md §4 C03'),
  'C06': (True, 'Coq proof of the rank grid (columns/rows partition, singleton intersections, gradient source) for all W = k*p and every assignment accepted by greedy_ok_b; PrimFloat model of the fraction rule with a vm_compute theorem for all W <= 4096; correspondence for every local rank',
          'Theorems for all p, k > 0 (W = k*p), all cost maps and every tie-break: columns and rows partition the world into equal duplicate-free parts, each row meets each column in exactly one rank, all inverse workers of a layer lie in one column, every rank has exactly one gradient source (in its row, in the layer column; itself when it is a gradient worker), broadcast flags; bounded theorem: for all W <= 4096 and k | W the IEEE-double computation on k/W yields k. Tie: one KAISAAssignment per local rank (all ranks for W <= 24/48), all public queries compared with the extracted kaisa_view of the implementation inverse assignment, which must be accepted by greedy_ok_b on the columns; equality of the inverse assignment and of the group-creation order across ranks; fraction handling of KAISAAssignment and KFACPreconditioner compared bit-exactly with the PrimFloat model evaluated inside Coq.',
          'Coq kernel incl. vm_compute; PrimFloat/PrimInt63 kernel primitives; extraction + driver; coqc evaluation of generated float cases; integer costs; fraction theorem bounded by W <= 4096 (named _partial).',
